@@ -309,7 +309,9 @@ func genC06Engine(r *rng, n int, w *bufio.Writer) {
 			rpool = append(rpool, t)
 		}
 	}
-	req := func() *rules.Request { return rules.NewRequest("http://e.org/ad.js", "http://site.com/page", rules.TypeScript) }
+	req := func() *rules.Request {
+		return rules.NewRequest("http://e.org/ad.js", "http://site.com/page", rules.TypeScript)
+	}
 	for i := 0; i < n; i++ {
 		if r.chance(1, 2) {
 			ts := append(c06Multiset(r, rpool, 6), c06Multiset(r, spool, 3)...)
